@@ -42,6 +42,7 @@ struct Out {
     mk::Dense<double> K, T2;                    // kept source after move_to_backend(keep_src) and its transpose
     std::vector<std::string> err;               // structural errors seen by ranks
     std::vector<double> y, r;                   // spmv / residual (by global row)
+    std::vector<double> y0;                     // product with a first vector, made immediately before the one above on the same object
     std::vector<double> ip, gersh, power;       // per rank scalars
     std::vector<std::complex<double>> ipc;      // complex inner product per rank
     std::vector<long> grows, gcols, gnnz;
@@ -143,9 +144,16 @@ static void rank_body(int rank, const Case &cs, Out &o) {
         A->move_to_backend(B::params(), true);
         int nr = re - rb, nc = ce - cb;
         backend::numa_vector<double> x(nc), y(nr), f(nr), r(nr);
-        for (int j = 0; j < nc; ++j) x[j] = 1 + ((cb + j) * 3) % 5;
-        for (int i = 0; i < nr; ++i) { y[i] = 2 - ((rb + i) % 3); f[i] = 7 + (rb + i); }
-        backend::spmv(2.0, *A, x, -1.0, y);
+        // two products in a row on one object, the vector overwritten in place in between and nothing collective in between:
+        // a ghost-value message of the first product that is still in flight must not see the second vector
+        { backend::numa_vector<double> y0(nr);
+          for (int j = 0; j < nc; ++j) x[j] = 2 - ((cb + j) % 4);
+          backend::spmv(1.0, *A, x, 0.0, y0);
+          for (int j = 0; j < nc; ++j) x[j] = 1 + ((cb + j) * 3) % 5;
+          for (int i = 0; i < nr; ++i) y[i] = 2 - ((rb + i) % 3);
+          backend::spmv(2.0, *A, x, -1.0, y);
+          for (int i = 0; i < nr; ++i) o.y0[rb + i] = y0[i]; }
+        for (int i = 0; i < nr; ++i) { f[i] = 7 + (rb + i); }
         backend::residual(f, *A, x, r);
         for (int i = 0; i < nr; ++i) { o.y[rb + i] = y[i]; o.r[rb + i] = r[i]; }
         // beta = 0 must ignore previous content
@@ -176,7 +184,7 @@ static void rank_body(int rank, const Case &cs, Out &o) {
 static Out fresh_out(const Case &cs) {
     int k = cs.rp.k();
     Out o; o.K = mk::Dense<double>(cs.m, cs.n); o.T2 = mk::Dense<double>(cs.n, cs.m); o.T = mk::Dense<double>(cs.n, cs.m); o.AAt = mk::Dense<double>(cs.m, cs.m); o.AtA = mk::Dense<double>(cs.n, cs.n); o.S = mk::Dense<double>(cs.m, cs.n); o.Cp = mk::Dense<double>(cs.m, cs.n);
-    o.y.assign(cs.m, 0); o.r.assign(cs.m, 0); o.ip.assign(k, 0); o.ipc.assign(k, std::complex<double>(0, 0)); o.gersh.assign(k, 0); o.power.assign(k, 0);
+    o.y.assign(cs.m, 0); o.r.assign(cs.m, 0); o.y0.assign(cs.m, 0); o.ip.assign(k, 0); o.ipc.assign(k, std::complex<double>(0, 0)); o.gersh.assign(k, 0); o.power.assign(k, 0);
     o.grows.assign(k, -1); o.gcols.assign(k, -1); o.gnnz.assign(k, -1); o.rr.assign(k, "not run"); o.exc.assign(k, "");
     return o;
 }
@@ -192,7 +200,7 @@ static uint64_t rank_digest(int rank, const Case &cs, const Out &o) {
         for (int i = b; i < e && i < D.m; ++i) for (int j = 0; j < D.n; ++j) { h = vf::hmix(h, (uint64_t)D.st(i, j)); if (D.st(i, j)) { uint64_t bits; std::memcpy(&bits, &D(i, j), 8); h = vf::hmix(h, bits); } }
     };
     rows(o.K, rb, re); rows(o.T2, cb, ce); rows(o.T, cb, ce); rows(o.AAt, rb, re); rows(o.AtA, cb, ce); rows(o.S, rb, re); rows(o.Cp, rb, re);
-    for (int i = rb; i < re; ++i) { uint64_t b1, b2; std::memcpy(&b1, &o.y[i], 8); std::memcpy(&b2, &o.r[i], 8); h = vf::hmix(h, b1); h = vf::hmix(h, b2); }
+    for (int i = rb; i < re; ++i) { uint64_t b1, b2, b3; std::memcpy(&b1, &o.y[i], 8); std::memcpy(&b2, &o.r[i], 8); std::memcpy(&b3, &o.y0[i], 8); h = vf::hmix(h, b1); h = vf::hmix(h, b2); h = vf::hmix(h, b3); }
     { uint64_t b; double re = o.ipc[rank].real(), im = o.ipc[rank].imag(); std::memcpy(&b, &re, 8); h = vf::hmix(h, b); std::memcpy(&b, &im, 8); h = vf::hmix(h, b); }
     { uint64_t b; std::memcpy(&b, &o.ip[rank], 8); h = vf::hmix(h, b); std::memcpy(&b, &o.gersh[rank], 8); h = vf::hmix(h, b); }
     h = vf::hmix(h, (uint64_t)o.grows[rank]); h = vf::hmix(h, (uint64_t)o.gcols[rank]); h = vf::hmix(h, (uint64_t)o.gnnz[rank]);
